@@ -486,21 +486,121 @@ def _approx_symmetry(ctx, fn, v1, v2, body):
         ctx.violation('C19.D3', '%s::Grid._approx_check' % FG, 'no boolean branch',
                       'grid with the cell True == grid with the cell 1 (a marker-like boolean equals a number: another kind)',
                       '_approx_check does not keep booleans apart from numbers', file=FG, line=fn.lineno, engine='E6')
-    # tolerance comparison reflexive
-    tol = [n for n in ast.walk(fn) if isinstance(n, ast.Compare) and 'abs(' in norm(n.left)]
-    for t in tol:
-        p = getattr(t, '_parent', None)
-        txt = norm(p) if isinstance(p, ast.BoolOp) else norm(t)
-        has_eq = '%s == %s' % (v1, v2) in txt or '%s == %s' % (v2, v1) in txt
-        has_nan = ('%s != %s' % (v1, v1) in txt and '%s != %s' % (v2, v2) in txt) or 'isnan' in txt
-        if isinstance(p, ast.BoolOp) and isinstance(p.op, ast.Or) and has_eq and has_nan:
-            ctx.ob('C19.D3', 'the tolerance comparison is reflexive for NaN and +-INF (`%s`)' % txt[:70], True,
-                   '%s:%d' % (FG, t.lineno))
+    # the float branch: exact disjuncts plus one absolute tolerance of the documented size
+    _float_branch(ctx, fn, v1, v2, tests)
+
+
+TOL_LO, TOL_HI = 5e-07, 1e-06    # six decimals: a round-trip moves a float by up to 5e-7; 1e-6 is the documented bound
+
+
+def _num(node):
+    if isinstance(node, ast.Constant) and isinstance(node.value, (int, float)) and not isinstance(node.value, bool):
+        return float(node.value)
+    if isinstance(node, ast.UnaryOp) and isinstance(node.op, ast.USub):
+        v = _num(node.operand)
+        return None if v is None else -v
+    return None
+
+
+def _float_branch(ctx, fn, v1, v2, tests):
+    con = '%s::Grid._approx_check' % FG
+    pair = {v1, v2}
+    br = [n for n in tests
+          if any(isinstance(c, ast.Call) and norm(c.func) == 'isinstance' and len(c.args) == 2
+                 and isinstance(c.args[0], ast.Name) and c.args[0].id in pair and norm(c.args[1]) == 'float'
+                 for c in ast.walk(n.test))]
+    if len(br) != 1:
+        ctx.error('C19.D3', '_approx_check: float branch not recognised (%d candidates)' % len(br))
+        return
+    rets = [n for n in br[0].body if isinstance(n, ast.Return)]
+    if len(rets) != 1 or br[0].body[-1] is not rets[0]:
+        ctx.error('C19.D3', '_approx_check: float branch does not end in one return')
+        return
+    ret = rets[0]
+    val = ret.value
+    disj = val.values if isinstance(val, ast.BoolOp) and isinstance(val.op, ast.Or) else [val]
+    kinds = []
+
+    def is_pair(a, b):
+        return isinstance(a, ast.Name) and isinstance(b, ast.Name) and {a.id, b.id} == pair
+
+    for d in disj:
+        k = None
+        if isinstance(d, ast.Compare) and len(d.ops) == 1 and isinstance(d.ops[0], ast.Eq) and is_pair(d.left, d.comparators[0]):
+            k = ('eq',)
+        elif isinstance(d, ast.BoolOp) and isinstance(d.op, ast.And) and len(d.values) == 2:
+            t = sorted(norm(x) for x in d.values)
+            if t == sorted(['%s != %s' % (v1, v1), '%s != %s' % (v2, v2)]) or \
+                    t == sorted(['math.isnan(%s)' % v1, 'math.isnan(%s)' % v2]) or \
+                    t == sorted(['isnan(%s)' % v1, 'isnan(%s)' % v2]):
+                k = ('nan',)
+        elif isinstance(d, ast.Compare) and len(d.ops) == 1 and isinstance(d.ops[0], (ast.Lt, ast.LtE)) \
+                and isinstance(d.left, ast.Call) and norm(d.left.func) == 'abs' and len(d.left.args) == 1 \
+                and isinstance(d.left.args[0], ast.BinOp) and isinstance(d.left.args[0].op, ast.Sub) \
+                and is_pair(d.left.args[0].left, d.left.args[0].right):
+            c = _num(d.comparators[0])
+            if c is None and any(isinstance(x, ast.Name) and x.id in pair for x in ast.walk(d.comparators[0])):
+                k = ('abs', 0.0, 'operands')
+            else:
+                k = ('abs', c, 0.0)
+        elif isinstance(d, ast.Call) and norm(d.func) in ('math.isclose', 'isclose') and len(d.args) == 2 \
+                and is_pair(d.args[0], d.args[1]):
+            kw = {x.arg: _num(x.value) for x in d.keywords}
+            k = ('abs', kw.get('abs_tol', 0.0), kw.get('rel_tol', 1e-09))
+            kinds.append(('eq',))       # isclose(a, a) is True for +-INF as well
+        if k is None:
+            ctx.error('C19.D3', '_approx_check float branch: disjunct `%s` is not an exact test nor a recognised tolerance '
+                                'test; cannot decide' % norm(d)[:80])
+            return
+        kinds.append(k + (d,))
+    kset = {k[0] for k in kinds}
+    where = '%s:%d' % (FG, ret.lineno)
+    if 'eq' in kset and 'nan' in kset:
+        ctx.ob('C19.D3', 'the float comparison is reflexive for NaN and +-INF (exact disjuncts `==` and both-NaN)', True, where)
+    else:
+        ctx.violation('C19.D3', con, norm(ret),
+                      'a grid holding NaN (or INF) is not equal to its own faithful copy: abs(x - x) < eps is False for '
+                      'NaN and for INF - INF', 'the float tolerance test is not reflexive for non-finite numbers',
+                      file=FG, line=ret.lineno, engine='E6')
+    tols = [k for k in kinds if k[0] == 'abs']
+    if not tols:
+        ctx.violation('C19.D3', con, norm(ret),
+                      'a grid with the cell 0.1234564 and its own JSON round-trip (0.123456) are unequal: floats are compared '
+                      'exactly', 'the float branch has no tolerance test: a faithful six-decimal copy differs', file=FG,
+                      line=ret.lineno, engine='E6')
+        return
+    for _, a, r, d in tols:
+        if a is None or r is None:
+            ctx.error('C19.D3', '_approx_check: tolerance of `%s` is not a constant' % norm(d)[:80])
+            continue
+        if r == 'operands':
+            ctx.violation('C19.D3', con, norm(d),
+                          'the bound `%s` grows with the cells compared: large cells that differ by far more than 1e-06 '
+                          'compare equal (and != says False)' % norm(d.comparators[0])[:60],
+                          'the float tolerance depends on the operands instead of being the documented absolute 1e-06',
+                          file=FG, line=d.lineno, engine='E6')
+        elif r != 0.0:
+            big = 2.0 * TOL_HI / r
+            ctx.violation('C19.D3', con, norm(d),
+                          'grid with the cell %r == grid with the cell %r is True (and != False) although they differ by 1.0: '
+                          'the comparison allows a relative error of %g, which exceeds the documented absolute tolerance '
+                          'from about %g upwards' % (big, big + 1.0, r, TOL_HI / r),
+                          'the float tolerance is relative (rel_tol=%g): large cells that differ materially compare equal' % r,
+                          file=FG, line=d.lineno, engine='E6')
+        elif not (TOL_LO <= a <= TOL_HI):
+            if a > TOL_HI:
+                ctx.violation('C19.D3', con, norm(d),
+                              'grid with the cell 0.0 == grid with the cell %r is True although they differ beyond six decimals'
+                              % (a * 0.9), 'the absolute tolerance %g exceeds the documented 1e-06' % a,
+                              file=FG, line=d.lineno, engine='E6')
+            else:
+                ctx.violation('C19.D3', con, norm(d),
+                              'a grid with the cell 0.1234564 is unequal to its own JSON round-trip (cell 0.123456): the two '
+                              'differ by 4e-7', 'the absolute tolerance %g is below the six-decimal rounding error 5e-07' % a,
+                              file=FG, line=d.lineno, engine='E6')
         else:
-            ctx.violation('C19.D3', '%s::Grid._approx_check' % FG, norm(t),
-                          'a grid holding NaN (or INF) is not equal to its own faithful copy: abs(x - x) < eps is False for '
-                          'NaN and for INF - INF', 'the float tolerance test is not reflexive for non-finite numbers',
-                          file=FG, line=t.lineno, engine='E6')
+            ctx.ob('C19.D3', 'floats are compared with the absolute tolerance %g and no relative term (`%s`)'
+                   % (a, norm(d)[:60]), True, '%s:%d' % (FG, d.lineno))
 
 
 def _grid_eq(ctx, m):
